@@ -7,7 +7,7 @@ Three parts, each a literal transcription of the code named beside it:
 1. *Set-iteration sites.*  Python iterates a `set` in an order fixed by the hash seed of the
    interpreter.  A site is therefore modelled as a function applied to an ARBITRARY enumeration
    (`enum : List α`, no duplicates) of the set; the property is invariance under permutation.
-   Sites: `System.root_names` consumers (`driver.get_system` project-name guess,
+   Sites: `System.root_names` consumers (`driver.get_system` project-name guess — sorted since f35e237,
    `Documentable.url`, `TemplateWriter.writeSummaryPages`, `summary.summaryPages`,
    `linker` membership test), `astutils._annotation_for_elements`, `IndexPage.rootkind`.
 2. *Directory traversal.*  `System.addPackage` = `for path in sorted(package_path.iterdir())`.
@@ -49,16 +49,23 @@ def join (sep : Name) : List Name → Name
 
 def slash : Nat := 47
 
-/-- driver.get_system, step 3:
+/-- driver.get_system, step 3 (since /repo f35e237):
 ```
 if system.options.projectname is None:
-    name = '/'.join(system.root_names)          # <- iterates the set
+    name = '/'.join(sorted(system.root_names))  # <- the set is sorted before it is joined
     system.projectname = name
 else:
     system.projectname = system.options.projectname
 ```
 `enum` is the order in which this interpreter enumerates `system.root_names`. -/
 def projectName (explicit : Option Name) (enum : List Name) : Name :=
+  match explicit with
+  | none => join [slash] (sorted enum)
+  | some n => n
+
+/-- the same step BEFORE f35e237 (`name = '/'.join(system.root_names)`: the set was joined in the
+interpreter's enumeration order).  Kept for the record only: `projectname_counterexample_old`. -/
+def projectNameOld (explicit : Option Name) (enum : List Name) : Name :=
   match explicit with
   | none => join [slash] enum
   | some n => n
